@@ -42,6 +42,39 @@ chk('C06', 'model_checking',
     TB + 'The look-ahead in the spec uses true columns; the engine\'s relative-column quirk is on the optimistic side.',
     'TLA+ trace validation (LayoutSpec.tla guard C06.break) with TLC + pformat corollary', 'DESIGN.md section 5 C06', 'layout')
 
+chk('C15', 'model_checking',
+    'spec/Registry.tla states the dispatch rule abstractly (nearest registered class in the MRO, else first predicate, '
+    'else repr; is_registered three-valued where promotion is unobservable; print-history independence) and transcribes '
+    'register_pretty/is_registered/pretty_python_value concretely; RegistryMC explores ALL reachable (abstract, concrete) '
+    'state pairs on 3-class sub-lattices and checks concrete => abstract in each; histories emitted by TLC (exhaustive '
+    'length 2, -simulate length 12) and seeded random ones are executed on the real module with freshly minted classes '
+    'and every execution is validated by TLC (RegistryTrace) step by step, results against the abstract rule '
+    '(VIOLATION) and results + registry projection against the concrete prediction (DRIFT).',
+    TB + 'Where one class holds both a by-name and a by-class registration either printer is accepted but it must not change between registrations.',
+    'TLA+ model checking of the registry + replay of TLC-generated histories + trace validation', 'DESIGN.md section 5 C15', 'registry')
+chk('C18', 'model_checking',
+    'spec/Config.tla: effective = explicit over defaults, set_default_config changes exactly its keys, what each of the six '
+    'entry points passes on and appends; ConfigMC explores every reachable default state; histories (systematic per-key grid, '
+    'TLC -simulate walks, seeded random) are executed on the real package and validated by TLC (ConfigTrace) against a table '
+    'of reference texts pformat(value, **full config).',
+    TB + 'Texts are identified with one of 64 reference renderings of a value chosen to be sensitive to every setting.',
+    'TLA+ trace validation of configuration/entry-point histories (TLC) + model checking of the defaults state space', 'DESIGN.md section 5 C18', 'config')
+chk('C19', 'exploration',
+    'Print histories (all ordered pairs, triples of cache-warming values, random walks of length 30) over a corpus touching '
+    'every cache are executed in one interpreter with pristine caches and validated by TLC against spec/History.tla: every '
+    'text must equal the baseline obtained by printing that value first in a fresh interpreter, inputs are deep-snapshotted '
+    'before/after, and the cache projection must equal the accumulated footprints (DRIFT).',
+    TB + 'Exploration of histories, not a proof of purity; baselines come from one subprocess per corpus value.',
+    'replay of print histories validated against History.tla (TLC) with fresh-interpreter baselines', 'DESIGN.md section 5 C19', 'history')
+chk('C20', 'model_checking',
+    'spec/RegistryThreads.tla splits the dispatch path at source-line granularity (Acquire/Check/Pop/Reg/NextC/Release/'
+    'Dispatch) and TLC checks, over all interleavings of 2-3 threads x all programs, that no call raises and each returns the '
+    'sequential result (with Locking = FALSE it finds both races, used as a standing canary). On the code, a deterministic '
+    'sys.settrace scheduler runs every preemption plan up to a bound at package line boundaries; each execution is judged by '
+    'TLC (RegistryThreadsTrace: SafeTrace = VIOLATION clause, behaviour-of-the-model = DRIFT).',
+    TB + 'Thread switches only at line boundaries of the dispatch-path functions; functools internals atomic.',
+    'TLA+ model checking of all interleavings + systematic schedule exploration with trace validation', 'DESIGN.md section 5 C20', 'threads')
+
 ALL = ['C%02d' % i for i in range(1, 21)]
 REASON_PENDING = 'check not built yet in this round; see DESIGN.md section 8 (order of work)'
 
@@ -57,6 +90,10 @@ def main():
         engines=[
             dict(name='layout', path='spec/LayoutSpec.tla', serves_properties=['C04', 'C05', 'C06'],
                  kind_free_text='abstract nondeterministic layout machine + concrete LayoutImpl.tla/LayoutImplMC.tla/Render.tla, run by TLC; harness/checks/layout.py feeds real SDoc streams'),
+            dict(name='registry', path='spec/Registry.tla', serves_properties=['C15'], kind_free_text='Registry.tla + RegistryMC.tla + RegistryTrace.tla (TLC); harness/checks/registry.py'),
+            dict(name='threads', path='spec/RegistryThreads.tla', serves_properties=['C20'], kind_free_text='RegistryThreads.tla + RegistryThreadsTrace.tla (TLC); harness/sched.py deterministic scheduler'),
+            dict(name='config', path='spec/Config.tla', serves_properties=['C18'], kind_free_text='Config.tla + ConfigMC.tla + ConfigTrace.tla (TLC)'),
+            dict(name='history', path='spec/History.tla', serves_properties=['C19'], kind_free_text='History.tla (TLC) + fresh-interpreter baselines'),
         ],
         checks=[CHECKS[p] for p in ALL if p in CHECKS],
         notes='See DESIGN.md. bin/check <ID> --tier quick|thorough; exit 0 ok / 1 VIOLATION / 2 machinery error.',
